@@ -62,88 +62,117 @@ Variant == <<
   << Link(P("ld_up"), <<"..">>), Link(P("ld_abs"), <<"", "R">>) >>
 >>
 VariantUnits == <<
-  {}, {"lf_in", "lf_out"}, {"lf_in", "lf_out"}, {"ld_in", "ld_out"}, {"hl", "hl_in"},
-  {"lf2", "lf_hl", "ld_X"}, {"ld_up", "ld_abs"} >>
-CommonUnits == {"", ".", "..", "in.bin", "sub", "in2.bin", "base", "baseX", "out", "secret",
-                "lbase", "nx", "ABS"}
+  <<>>, <<"lf_in", "lf_out">>, <<"lf_in", "lf_out">>, <<"ld_in", "ld_out">>, <<"hl", "hl_in">>,
+  <<"lf2", "lf_hl", "ld_X">>, <<"ld_up", "ld_abs">> >>
+CommonUnits == <<"", ".", "..", "in.bin", "sub", "in2.bin", "base", "baseX", "out", "secret",
+                 "lbase", "nx", "ABS">>
 
-MCInstFS == [i \in DOMAIN Variant |-> CommonFS \o Variant[i]]
-Units(i) == CommonUnits \cup VariantUnits[i]
+MCEntries == [i \in DOMAIN Variant |-> CommonFS \o Variant[i]]
+MCInstFS  == [i \in DOMAIN Variant |->
+                [p \in {MCEntries[i][n].p : n \in DOMAIN MCEntries[i]} |->
+                    MCEntries[i][CHOOSE n \in DOMAIN MCEntries[i] : MCEntries[i][n].p = p]]]
+UnitSeq == [i \in DOMAIN Variant |-> CommonUnits \o VariantUnits[i]]
 
-SpDirect(cwd, b) == [route |-> "direct", cwd |-> cwd, b |-> b, mp |-> <<"">>]
-SpLoad(cwd, mp)  == [route |-> "load",   cwd |-> cwd, b |-> <<"">>, mp |-> mp]
+SpDirect(nm, cwd, b) == [name |-> nm, route |-> "direct", cwd |-> cwd, b |-> b, mp |-> <<"">>]
+SpLoad(nm, cwd, mp)  == [name |-> nm, route |-> "load",   cwd |-> cwd, b |-> <<"">>, mp |-> mp]
 MCSpell == <<
-  SpDirect(R, <<"", "R", "base">>),               \*  1 absolute
-  SpDirect(R, <<"base">>),                        \*  2 relative to the working directory
-  SpDirect(R, <<"", "R", "base", "">>),           \*  3 trailing separator
-  SpDirect(R, <<"", "R", "lbase">>),              \*  4 through a symbolic link
-  SpDirect(B, <<".">>),                           \*  5 "."
-  SpDirect(P("sub"), <<"..">>),                   \*  6 ".."
-  SpDirect(R, <<".", "out", "..", "", "base">>),  \*  7 not normalised: ./out/..//base
-  SpDirect(B, <<"">>),                            \*  8 empty: no boundary defined (documented)
-  SpDirect(R, <<"", "", "R", "base">>),           \*  9 two leading separators
-  SpDirect(R, <<"lbase", "">>),                   \* 10 relative, through the link, trailing separator
-  SpLoad(B, <<"m.onnx">>),                        \* 11 bare file name
-  SpLoad(B, <<".", "m.onnx">>),                   \* 12 ./m.onnx
-  SpLoad(R, <<"base", "m.onnx">>),                \* 13 relative
-  SpLoad(R, <<"", "R", "base", "m.onnx">>),       \* 14 absolute
-  SpLoad(R, <<"lbase", "m.onnx">>),               \* 15 through a symbolic link to the directory
-  SpLoad(R, <<"", "R", "lbase", "m.onnx">>),      \* 16 the same, absolute
-  SpLoad(B, <<"sub", "..", "m.onnx">>),           \* 17 not normalised
-  SpLoad(R, <<"base", "", "m.onnx">>),            \* 18 doubled separator
-  SpDirect(R, <<"", "R", "out">>)                 \* 19 another directory (protocol mode only)
+  SpDirect("abs", R, <<"", "R", "base">>),               \*  1 absolute
+  SpDirect("rel", R, <<"base">>),                        \*  2 relative to the working directory
+  SpDirect("trailing-sep", R, <<"", "R", "base", "">>),           \*  3 trailing separator
+  SpDirect("via-symlink", R, <<"", "R", "lbase">>),              \*  4 through a symbolic link
+  SpDirect("dot", B, <<".">>),                           \*  5 "."
+  SpDirect("dotdot", P("sub"), <<"..">>),                   \*  6 ".."
+  SpDirect("non-normalised", R, <<".", "out", "..", "", "base">>),  \*  7 not normalised: ./out/..//base
+  SpDirect("empty", B, <<"">>),                            \*  8 empty: no boundary defined (documented)
+  SpDirect("double-slash", R, <<"", "", "R", "base">>),           \*  9 two leading separators
+  SpDirect("rel-symlink-trailing", R, <<"lbase", "">>),                   \* 10 relative, through the link, trailing separator
+  SpLoad("bare-name", B, <<"m.onnx">>),                        \* 11 bare file name
+  SpLoad("dot-slash", B, <<".", "m.onnx">>),                   \* 12 ./m.onnx
+  SpLoad("rel", R, <<"base", "m.onnx">>),                \* 13 relative
+  SpLoad("abs", R, <<"", "R", "base", "m.onnx">>),       \* 14 absolute
+  SpLoad("via-symlink-rel", R, <<"lbase", "m.onnx">>),               \* 15 through a symbolic link to the directory
+  SpLoad("via-symlink-abs", R, <<"", "R", "lbase", "m.onnx">>),      \* 16 the same, absolute
+  SpLoad("non-normalised", B, <<"sub", "..", "m.onnx">>),           \* 17 not normalised
+  SpLoad("doubled-sep", R, <<"base", "", "m.onnx">>),            \* 18 doubled separator
+  SpDirect("other-dir", R, <<"", "R", "out">>)                 \* 19 another directory (protocol mode only)
 >>
 
 ProtoLoc == << <<"in.bin">>, <<"..", "out", "secret">>, <<"secret">>, <<"lf_out">>, <<"lf_in">>, <<"nx">> >>
 
+VARIABLE cases   \* enumeration mode: the evaluated configurations loc \o u, one per unit u
+allvars == <<inst, sp, loc, base, arr, raw, valid, hist, cases>>
+
 Fresh == arr = 0 /\ raw = 0 /\ valid = TRUE /\ hist = <<>>
 
 \* ---------------------------------------------------------------- enumeration mode
+UnitComps(u) == IF u = "ABS" THEN <<"", "R">> ELSE <<u>>
+NUnits(l) == IF Len(l) >= 2 /\ l[1] = "" /\ l[2] = "R" THEN Len(l) - 1 ELSE Len(l)
+
+\* one configuration (instance, spelling, location l): the verdict of the specification, the
+\* kernel's open result, the realpath, and the property formulas evaluated on it
+CaseEval(C, lg, l) ==
+  LET e == Eval(C, l) IN
+  [l |-> l, v |-> VerdictOf(e), o |-> e.o, rp |-> e.rp, kp |-> e.kp,
+   fc   |-> FailClosedAt(C, lg, e),
+   norp |-> NoOverRejectPlainAt(C, l, e),
+   nor  |-> NoOverRejectAt(C, lg, e)]
+
+\* the configurations that extend location l by one unit ("ABS" only in first position)
+ChildUnits(l) == SelectSeq(UnitSeq[inst], LAMBDA u : u # "ABS" \/ l = <<>>)
+Children(l) ==
+  LET us == ChildUnits(l)
+      C  == Ctx(FS, Cwd, base)
+      lg == LegitOf(C)
+  IN [n \in DOMAIN us |-> CaseEval(C, lg, l \o UnitComps(us[n]))]
+
 InitEnum ==
   /\ inst \in InstSet /\ sp \in SpellSet /\ loc = <<>>
   /\ base = BaseOf(Spell[sp]) /\ Fresh
+  /\ cases = Children(<<>>)
 
-UnitComps(u) == IF u = "ABS" THEN <<"", "R">> ELSE <<u>>
-NUnits(l) == IF Len(l) >= 2 /\ l[1] = "" /\ l[2] = "R" THEN Len(l) - 1 ELSE Len(l)
+\* a state is a location prefix of at most MaxUnits-1 units carrying its evaluated extensions
 Extend(u) ==
-  /\ NUnits(loc) < MaxUnits
+  /\ NUnits(loc) < MaxUnits - 1
   /\ u = "ABS" => loc = <<>>
   /\ loc' = loc \o UnitComps(u)
+  /\ cases' = Children(loc')
   /\ UNCHANGED <<inst, sp, base, arr, raw, valid, hist>>
-NextEnum == \E u \in Units(inst) : Extend(u)
+NextEnum == \E n \in DOMAIN UnitSeq[inst] : Extend(UnitSeq[inst][n])
 
-IsCase == loc # <<>>
-FailClosed        == IsCase => FailClosedAt(FS, Cwd, base, loc)
-NoOverRejectPlain == IsCase => NoOverRejectPlainAt(FS, Cwd, base, loc)
-NoOverReject      == IsCase => NoOverRejectAt(FS, Cwd, base, loc)
+FailClosed        == \A n \in DOMAIN cases : cases[n].fc
+NoOverRejectPlain == \A n \in DOMAIN cases : cases[n].norp
+NoOverReject      == \A n \in DOMAIN cases : cases[n].nor
 LoadBase          == Spell[sp].route = "load" => LoadBaseAt(FS, Cwd, Spell[sp].mp)
+\* sanity of the model itself: whenever the kernel resolves the joined path, realpath names the
+\* same object (the check looks at the file that open() will reach)
+RealpathAgreesWithKernel ==
+  \A n \in DOMAIN cases : cases[n].kp.ok => cases[n].kp.p = cases[n].rp
 
-SpellTable == [n \in DOMAIN Spell |-> [route |-> Spell[n].route, cwd |-> Spell[n].cwd,
+SpellTable == [n \in DOMAIN Spell |-> [name |-> Spell[n].name, route |-> Spell[n].route, cwd |-> Spell[n].cwd,
                                         b |-> BaseOf(Spell[n]), mp |-> Spell[n].mp]]
-RootRec == [t |-> "root", i |-> inst, s |-> sp, route |-> Spell[sp].route,
+RootRec == [t |-> "root", i |-> inst, s |-> sp, name |-> Spell[sp].name, route |-> Spell[sp].route,
             cwd |-> Cwd, b |-> base, mp |-> Spell[sp].mp,
-            legit |-> Legit(FS, Cwd, base), fs |-> FS,
-            units |-> Units(inst), spells |-> SpellTable]
+            legit |-> Legit(FS, Cwd, base), fs |-> MCEntries[inst],
+            units |-> UnitSeq[inst], spells |-> SpellTable]
 
+Compact(c) == <<c.l, c.v.k, c.v.f, c.v.why, c.o.f, c.o.err, c.rp>>
 EmitCase ==
   EmitOn =>
-    IF IsCase
-      THEN PrintT(ToJson([t |-> "case", i |-> inst, s |-> sp, l |-> loc,
-                          v |-> Verdict(FS, Cwd, base, loc),
-                          o |-> OpenRes(FS, Cwd, base, loc),
-                          rp |-> Real(FS, Cwd, Join(base, loc))]))
-      ELSE PrintT(ToJson(RootRec))
+    /\ loc = <<>> => PrintT(ToJson(RootRec))
+    /\ PrintT(ToJson([t |-> "cases", i |-> inst, s |-> sp,
+                      cs |-> [n \in DOMAIN cases |-> Compact(cases[n])]]))
 
 \* ---------------------------------------------------------------- protocol mode
 InitProto ==
   /\ inst \in ProtoInsts /\ sp \in ProtoSpells /\ \E n \in ProtoLocIds : loc = ProtoLoc[n]
-  /\ base = BaseOf(Spell[sp]) /\ Fresh
+  /\ base = BaseOf(Spell[sp]) /\ Fresh /\ cases = <<>>
 
 NextProto ==
   /\ Len(hist) < MaxDepth
   /\ \/ Numpy \/ Array \/ ToBytes \/ ToFile("tofile_file") \/ ToFile("tofile_mem")
      \/ Convert \/ Release \/ Invalidate
      \/ \E s \in ProtoSpells : SetBase(s)
+  /\ UNCHANGED cases
 
 EmitHist ==
   EmitOn =>
